@@ -480,6 +480,39 @@ def r4_7(ctx):
     ctx.check(letters, "cleanup:letters", f.where(), "letter escapes (`\\d`, `\\w`, `\\S` ..) keep their backslash", "no letter test in the clean-up pass")
 
 
+def r4_9(ctx):
+    """(a) the clean-up that escapes `misused` curly brackets must know every valid repetition quantifier of the regex crate - `{n}`, `{n,m}` and the
+    open-ended `{n,}` - otherwise a valid expression is compiled as literal text (F40): the pattern constant is evaluated on a table;
+    (b) the two digits of `\\xHH` / `\\0OO` are validated as digits before u8::from_str_radix, which accepts a sign (F42)"""
+    import re as _re
+    from .c01 import _all_consts
+    prog = ctx.prog
+    init = [b for b in prog.bodies if b.promoted is None and "VALID_REPETITION_QUANTIFIER" in b.npath and b.npath.endswith("__static_ref_initialize")]
+    if len(init) != 1:
+        raise AnchorError("VALID_REPETITION_QUANTIFIER initialiser not found (%d)" % len(init))
+    pats = [c.as_str() for b_ in [init[0]] + prog.promoted_of(init[0]) for c, _ in _all_consts(b_) if c.as_str() and "{" in c.as_str()]
+    if len(pats) != 1:
+        raise AnchorError("VALID_REPETITION_QUANTIFIER: pattern constant not found (%s)" % pats)
+    try:
+        rx = _re.compile(pats[0])
+    except _re.error as e:
+        ctx.bad("valid-quantifier-pattern", init[0].where(), "pattern %r cannot be evaluated (%s)" % (pats[0], e))
+        return
+    must = ["{2}", "{10}", "{2,3}", "{2,}", "{0,}"]
+    must_not = ["{}", "{a}", "{,3}", "{2,a}", "{ 2}"]
+    miss = [x for x in must if not rx.fullmatch(x)]
+    extra = [x for x in must_not if rx.fullmatch(x)]
+    ctx.check(not miss and not extra, "valid-quantifier-table", init[0].where(), "the pattern %r recognises {n}, {n,m} and {n,} and nothing else of the table" % pats[0],
+              "the pattern %r does not recognise %s%s as a valid repetition quantifier: such a quantifier is escaped, `a{2,} (regex)` matches the text `a{2,}` and "
+              "not `aaa`" % (pats[0], miss, (" and accepts %s" % extra) if extra else ""))
+    f = prog.fn("resolve_escape_sequences_to_bytes")
+    bodies = [f] + prog.closures_of(f)
+    radix = [mname(t) for b_ in bodies for _, t in b_.calls() if (mname(t) or "").endswith("from_str_radix")]
+    valid = [mname(t) for b_ in bodies for _, t in b_.calls() if (mname(t) or "").split("::")[-1] in ("is_ascii_hexdigit", "is_digit", "to_digit", "is_ascii_digit", "is_ascii_octdigit")]
+    ctx.check(bool(radix) and len(valid) >= len(radix), "digits-validated", f.where(), "each of the %d from_str_radix conversions is preceded by a digit-class test (%s)" % (len(radix), sorted(set(valid))),
+              "%d from_str_radix conversion(s), %d digit-class test(s): from_str_radix accepts a sign, `\\x+1` resolves to the byte 0x01 instead of being rejected" % (len(radix), len(valid)))
+
+
 def run(ctx):
     ctx.run_rule("R4.1", "RegexRule::make anchors a *group* around the cleaned expression (`^(?:..)$`); the cram glob regex is anchored too [E-FLOW]", r4_1, floor=3)
     ctx.run_rule("R4.2", "per Rule impl the line reaches the whole-line comparator only through the documented transforms [E-FLOW]", r4_2, floor=8)
@@ -490,3 +523,4 @@ def run(ctx):
     ctx.run_rule("R4.5", "escape decoder tables (letter escapes, \\xHH radix 16 x2 digits, \\0OO radix 8, \\\\) [E-TABLE]", r4_5, floor=6)
     from . import c01
     ctx.run_rule("R4.8", "the text every rule kind compares is the line without its line feed(s) only: trim_newlines names no character but `\\n` (shared with C01 R1.9) [E-TABLE of constants]", c01.r1_9, floor=3)
+    ctx.run_rule("R4.9", "the quantifier clean-up knows {n}, {n,m} and {n,} (pattern constant evaluated on a table); hex / octal digits are validated before from_str_radix (F40, F42) [E-TABLE]", r4_9, floor=2)
